@@ -265,15 +265,10 @@ Proof.
 Qed.
 
 (* ------------------------------------------------------------------ _mergeToFibertree *)
-Definition tf_dflt (d : Z) (fs : list cfib) : ct :=
-  if existsb (fun f => existsb (fun cp => negb (is_leaf (snd cp))) f) fs then CN [] else CL d.
-Definition tf_pick (d : Z) (fs : list cfib) (c : coord) (f : cfib) : ct :=
-  match clookup c (cpresent d f) with Some p => p | None => tf_dflt d fs end.
-
 Lemma merge_tf_fibers : forall fuel d raise es0 p1 ps',
   merge_tf (S fuel) d raise (CN es0 :: p1 :: ps')
   = let fs := map sub (CN es0 :: p1 :: ps') in
-    option_map CN (all_some (map (fun c => option_map (pair c) (merge_tf fuel d raise (map (tf_pick d fs c) fs)))
+    option_map CN (all_some (map (fun c => option_map (pair c) (merge_tf fuel d raise (present_at d c fs)))
                                  (union_coords d fs))).
 Proof. reflexivity. Qed.
 
@@ -286,13 +281,48 @@ Proof.
   apply ccmp_eq in E. subst k. inversion H; subst. left. reflexivity.
 Qed.
 
-Lemma union_coords_empty : forall d fs, Forall (fun f => f = []) fs -> union_coords d fs = [].
+Lemma clookup_some : forall c g, In c (map fst g) -> exists p, clookup c g = Some p.
 Proof.
-  intros d fs H. unfold union_coords. induction H as [|f fs Hf _ IH]; [reflexivity|]. subst f. simpl. exact IH.
+  induction g as [|[k q] g IH]; intros H; [destruct H|]. simpl.
+  destruct (ccmp c k) eqn:E; try (destruct H as [H|H]; [simpl in H; subst; rewrite ccmp_refl in E; discriminate|apply IH; exact H]).
+  exists q. reflexivity.
 Qed.
 
 Lemma content_sub : forall d p, is_leaf p = false -> ccontent d (CN (sub p)) = ccontent d p.
 Proof. intros d [v|es] H; [discriminate|reflexivity]. Qed.
+
+(* every coordinate of the union is offered by some operand *)
+Lemma union_coords_conv : forall d fs c, In c (union_coords d fs) ->
+  exists f, In f fs /\ In c (map fst (cpresent d f)).
+Proof.
+  intros d fs c. unfold union_coords.
+  assert (G : forall fs acc, pw ccmp acc ->
+     In c (fold_left (fun acc f => fold_left (fun acc cp => ins_coord (fst cp) acc) (cpresent d f) acc) fs acc) ->
+     In c acc \/ exists f, In f fs /\ In c (map fst (cpresent d f))).
+  { induction fs0 as [|f fs0 IH]; intros acc Hacc H; simpl in H; [left; exact H|].
+    rewrite fold_left_fst in H. destruct (fold_ins_facts (map fst (cpresent d f)) acc Hacc) as [F1 F2].
+    destruct (IH _ F1 H) as [Hin|[f' [Hf' Hc]]].
+    - apply F2 in Hin. destruct Hin as [Hin|Hin]; [right; exists f; split; [left; reflexivity|exact Hin]|left; exact Hin].
+    - right. exists f'. split; [right; exact Hf'|exact Hc]. }
+  intros H. destruct (G fs [] I H) as [[]|E]. exact E.
+Qed.
+
+Definition pickN (c : coord) (f : cfib) : ct :=
+  match clookup c (cpresent 0 f) with Some p => p | None => CN [] end.
+
+Lemma present_at_content : forall c fs,
+  flat_map (ccontent 0) (present_at 0 c fs) = flat_map (fun f => ccontent 0 (pickN c f)) fs.
+Proof.
+  intros c fs. unfold present_at. rewrite flat_map_flat_map. apply flat_map_ext_in. intros f _.
+  unfold pickN. destruct (clookup c (cpresent 0 f)); simpl; [apply app_nil_r|reflexivity].
+Qed.
+
+Lemma flat_map_nonnil : forall {A B} (h : A -> list B) l x, In x l -> h x <> [] -> flat_map h l <> [].
+Proof.
+  induction l as [|y l IH]; intros x Hin Hx; [destruct Hin|]. simpl. destruct Hin as [->|Hin].
+  - destruct (h x); [congruence|discriminate].
+  - intros E. apply app_eq_nil in E. destruct E as [_ E]. apply (IH x Hin Hx E).
+Qed.
 
 Theorem merge_tf_content : forall fuel m ps, (m < fuel)%nat -> ps <> [] -> unif m ps ->
   exists t, merge_tf fuel 0 false ps = Some t /\ sq (ccontent 0 t) (flat_map (ccontent 0) ps)
@@ -320,7 +350,6 @@ Proof.
       set (fs := map sub ps). set (cs := union_coords 0 fs).
       destruct (union_coords_facts 0 fs) as [Hcspw Hcsin]. fold cs in Hcspw, Hcsin.
       assert (Hcsnd : NoDup cs) by (apply (pw_NoDup ccmp); [exact ccmp_refl|exact Hcspw]).
-      (* facts about the operands *)
       assert (Hfs : forall f, In f fs -> pw ccmp (map fst f)
                  /\ Forall (fun cp : coord * ct => cdepth_ok m' (snd cp) = true /\ csorted (snd cp) = true) f).
       { intros f Hf. unfold fs in Hf. apply in_map_iff in Hf. destruct Hf as [p [<- Hp]].
@@ -328,54 +357,20 @@ Proof.
         destruct p as [v|es]; [discriminate|]. simpl sub. apply csorted_CN in Hs. destruct Hs as [Hpw Hall].
         split; [exact Hpw|]. simpl in Hd. rewrite forallb_forall in Hd. apply Forall_forall. intros cp Hin.
         rewrite Forall_forall in Hall. split; auto. }
-      (* the default has the right depth whenever it is needed *)
-      destruct (Nat.eq_dec (length cs) 0) as [Ecs0|Ecsn].
-      { assert (Ecs : cs = []) by (destruct cs; [reflexivity|discriminate]).
-        assert (Hall0 : flat_map (ccontent 0) ps = []).
-        { assert (E : flat_map (ccontent 0) ps = flat_map (fun f => ccontent 0 (CN f)) fs).
-          { unfold fs. rewrite flat_map_map. apply flat_map_ext_in. intros p Hp. rewrite Forall_forall in HCN.
-            symmetry. apply content_sub. apply HCN. exact Hp. }
-          rewrite E. clear E. rewrite Ecs in Hcsin. clear -Hcsin.
-          induction fs as [|f fs' IHf]; [reflexivity|]. cbn [flat_map].
-          assert (Hf0 : ccontent 0 (CN f) = []).
-          { rewrite <- content_present. destruct (cpresent 0 f) as [|cp g] eqn:Eg; [reflexivity|].
-            exfalso. assert (Hin : In (fst cp) (@nil coord)).
-            { apply (Hcsin f cp); [left; reflexivity|rewrite Eg; left; reflexivity]. }
-            destruct Hin. }
-          rewrite Hf0. cbn [app]. apply IHf.
-          intros f' cp' Hf' Hcp'. apply (Hcsin f' cp'); [right; exact Hf'|exact Hcp']. }
-        rewrite Ecs. exists (CN []). split; [reflexivity|].
-        split; [apply sq_perm; apply Permutation_refl'; symmetry; exact Hall0|split; reflexivity]. }
-      assert (Hdflt : cdepth_ok m' (tf_dflt 0 fs) = true /\ csorted (tf_dflt 0 fs) = true /\ ccontent 0 (tf_dflt 0 fs) = []).
-      { unfold tf_dflt. destruct (existsb (fun f => existsb (fun cp : coord * ct => negb (is_leaf (snd cp))) f) fs) eqn:Eex.
-        - split; [|split; reflexivity]. apply existsb_exists in Eex. destruct Eex as [f [Hf Eex]].
-          apply existsb_exists in Eex. destruct Eex as [cp [Hcp Hnl]].
-          destruct (Hfs f Hf) as [_ Hall]. rewrite Forall_forall in Hall. destruct (Hall _ Hcp) as [Hd _].
-          destruct (snd cp); [discriminate|]. destruct m'; [discriminate|reflexivity].
-        - split; [|split; reflexivity].
-          destruct m' as [|m'']; [reflexivity|]. exfalso. apply Ecsn.
-          assert (Hall0 : Forall (fun f => f = []) fs).
-          { apply Forall_forall. intros f Hf. destruct f as [|cp f']; [reflexivity|]. exfalso.
-            destruct (Hfs _ Hf) as [_ Hall]. inversion Hall as [|? ? [Hd _] _]; subst.
-            assert (Hnl : negb (is_leaf (snd cp)) = true) by (destruct (snd cp); [discriminate|reflexivity]).
-            assert (Ht : existsb (fun f => existsb (fun cp : coord * ct => negb (is_leaf (snd cp))) f) fs = true).
-            { apply existsb_exists. exists (cp :: f'). split; [exact Hf|]. simpl. rewrite Hnl. reflexivity. }
-            rewrite Ht in Eex. discriminate. }
-          unfold cs. rewrite (union_coords_empty 0 fs Hall0). reflexivity. }
-      destruct Hdflt as [Hdd [Hds Hdc]].
-      assert (Hpicks : forall c, unif m' (map (tf_pick 0 fs c) fs)).
-      { intros c. apply Forall_forall. intros q Hq. apply in_map_iff in Hq. destruct Hq as [f [<- Hf]].
-        unfold tf_pick. destruct (clookup c (cpresent 0 f)) as [p|] eqn:El; [|split; assumption].
-        apply clookup_in in El. unfold cpresent in El. apply filter_In in El. destruct El as [El _].
+      assert (Hpicks : forall c, unif m' (present_at 0 c fs)).
+      { intros c. apply Forall_forall. intros q Hq. unfold present_at in Hq. apply in_flat_map in Hq.
+        destruct Hq as [f [Hf Hq]]. destruct (clookup c (cpresent 0 f)) as [p|] eqn:El; [|destruct Hq].
+        destruct Hq as [<-|[]]. apply clookup_in in El. unfold cpresent in El. apply filter_In in El. destruct El as [El _].
         destruct (Hfs f Hf) as [_ Hall]. rewrite Forall_forall in Hall. apply (Hall _ El). }
-      assert (Hfsne : fs <> []) by (unfold fs, ps; discriminate).
       destruct (all_some_Forall2
-                  (fun c => option_map (pair c) (merge_tf fuel 0 false (map (tf_pick 0 fs c) fs)))
+                  (fun c => option_map (pair c) (merge_tf fuel 0 false (present_at 0 c fs)))
                   (fun c (cp' : coord * ct) => exists t, cp' = (c, t)
-                       /\ sq (ccontent 0 t) (flat_map (ccontent 0) (map (tf_pick 0 fs c) fs))
+                       /\ sq (ccontent 0 t) (flat_map (ccontent 0) (present_at 0 c fs))
                        /\ cdepth_ok m' t = true /\ csorted t = true) cs) as [rs [Ers Rrs]].
-      { intros c _. destruct (IH m' (map (tf_pick 0 fs c) fs)) as [t [Et [Ht [Hd1 Hs1]]]]; [lia| |apply Hpicks|].
-        - destruct fs; [congruence|discriminate].
+      { intros c Hc. destruct (IH m' (present_at 0 c fs)) as [t [Et [Ht [Hd1 Hs1]]]]; [lia| |apply Hpicks|].
+        - destruct (union_coords_conv 0 fs c Hc) as [f [Hf Hk]].
+          unfold present_at. apply (flat_map_nonnil _ fs f Hf).
+          destruct (clookup_some c (cpresent 0 f) Hk) as [p Ep]. rewrite Ep. discriminate.
         - exists (c, t). rewrite Et. split; [reflexivity|]. exists t. auto. }
       rewrite Ers. exists (CN rs). split; [reflexivity|].
       assert (Hwf : cdepth_ok (S m') (CN rs) = true /\ csorted (CN rs) = true).
@@ -388,23 +383,22 @@ Proof.
         - apply csorted_CN. split; [rewrite Hk; exact Hcspw|].
           eapply Forall_impl; [|exact Hp]. intros cp [_ H]. exact H. }
       split; [|exact Hwf].
-      (* content of the result, coordinate by coordinate *)
       assert (S1 : sq (ccontent 0 (CN rs))
-                      (flat_map (fun c => map (pcons c) (flat_map (ccontent 0) (map (tf_pick 0 fs c) fs))) cs)).
+                      (flat_map (fun c => map (pcons c) (flat_map (ccontent 0) (present_at 0 c fs))) cs)).
       { clear -Rrs. induction Rrs as [|c cp' cs rs [t [-> [Ht _]]] _ IHR]; [apply sq_refl|].
         rewrite content_cons. cbn [flat_map]. apply sq_app; [|exact IHR].
         apply (sq_map (cons c)). exact Ht. }
       eapply sq_trans; [exact S1|]. apply sq_perm.
-      assert (E1 : flat_map (fun c => map (pcons c) (flat_map (ccontent 0) (map (tf_pick 0 fs c) fs))) cs
-                   = flat_map (fun c => flat_map (fun f => map (pcons c) (ccontent 0 (tf_pick 0 fs c f))) fs) cs).
-      { apply flat_map_ext_in. intros c _. rewrite flat_map_map, map_flat_map. reflexivity. }
+      assert (E1 : flat_map (fun c => map (pcons c) (flat_map (ccontent 0) (present_at 0 c fs))) cs
+                   = flat_map (fun c => flat_map (fun f => map (pcons c) (ccontent 0 (pickN c f))) fs) cs).
+      { apply flat_map_ext_in. intros c _. rewrite present_at_content, map_flat_map. reflexivity. }
       rewrite E1. eapply Permutation_trans; [apply flat_map_swap|].
       assert (E2 : flat_map (ccontent 0) ps = flat_map (fun f => ccontent 0 (CN f)) fs).
       { unfold fs. rewrite flat_map_map. apply flat_map_ext_in. intros p Hp. rewrite Forall_forall in HCN.
         symmetry. apply content_sub. apply HCN. exact Hp. }
       rewrite E2. apply perm_flat_map_ext. intros f Hf.
-      rewrite <- (content_present 0 f). unfold tf_pick.
-      apply (pick_sum (tf_dflt 0 fs) (cpresent 0 f) cs Hdc Hcsnd).
+      rewrite <- (content_present 0 f). unfold pickN.
+      apply (pick_sum (CN []) (cpresent 0 f) cs eq_refl Hcsnd).
       * apply (pw_NoDup ccmp); [exact ccmp_refl|]. unfold cpresent. apply pw_fst_filter_local. apply (Hfs f Hf).
       * intros k Hk. apply in_map_iff in Hk. destruct Hk as [cp [<- Hcp]]. apply (Hcsin f cp Hf Hcp).
 Qed.
